@@ -1078,9 +1078,8 @@ def copyser(F, R):
                 if not ok_o: R.find('C15.fields', f, 'rewire-before-copy', 'do_copy re-binds the states to the new machine before it overwrites them with the source\'s states: the copy\'s states keep the source\'s back-pointers (sm_ptr states, visitors)', where=f.at(rw[0]))
             # members that are re-established by wiring must not be taken from the source
             for x in sorted(w & set(COPY_EXEMPT)):
-                if x == 'm_visitors': continue
                 R.ob('C15.fields', False, {'func': f.q, 'copied_but_rebuilt': x})
-                R.find('C15.fields', f, 'copied:' + x, 'do_copy takes %s from the source machine (%s): the copy\'s nested machines then point at the original\'s container' % (x, COPY_EXEMPT[x]))
+                R.find('C15.fields', f, 'copied:' + x, 'do_copy takes %s from the source machine (%s): the copy then reaches into the original (its nested machines point at the original\'s container / its visitors run on the original\'s states)' % (x, COPY_EXEMPT[x]))
             if not rewire: R.find('C15.fields', f, 'no-rewire', 'do_copy does not re-bind the copied states (visitors, back-pointers) to the new machine')
         if f.n == 'serialize':
             R.seen(f); R.anchor('serialize:' + be)
@@ -1726,6 +1725,18 @@ def serstates(F, R):
                                 if x and 't' in x and 'serialize_state<' in F.strs[x['t']]: ok = True
             R.ob('C16.fields', ok, {'func': f.q, 'walks_substates': ok})
             if not ok: R.find('C16.fields', f, 'no-walk', 'serialize does not apply serialize_state to every element of m_substate_list')
+
+@rule('copyvisitors')
+def copyvisitors(F, R):
+    """C15.fields (back / back11): the table of state visitors is not copied (its entries are bound to the source's state objects) but
+    rebuilt for the copy: copy_helper, which do_copy applies to every state of the new machine, registers the state's visitor again."""
+    for f in F.funcs:
+        be = backend_of(f)
+        if be not in ('back', 'back11') or not f.blocks or f.cls != 'copy_helper' or f.n != 'operator()': continue
+        R.seen(f); R.anchor('copy-helper:' + be)
+        ok = any(n.get('n') == 'visitor_helper' or (n.get('n') == 'insert' and n.get('obj') and f.base_member(n['obj']) == 'm_visitors') for i, n in f.calls())
+        R.ob('C15.fields', ok, {'func': f.q, 'rebuilds_visitor': ok})
+        if not ok: R.find('C15.fields', f, 'no-visitor-rebuild', 'copy_helper does not register the visitor of the copied state with the new machine: the copy\'s visitor table stays empty (or keeps the source\'s entries) and visit_current_states() on the copy does not reach its own states')
 
 @rule('serelem')
 def serelem(F, R):
